@@ -41,12 +41,24 @@ func (h h1) NonTrivial(prop string, env *Env, st simrt.Stats) bool {
 
 func (h h1) Run(env *Env, cfg any) {
 	c := cfg.(*H1Cfg)
+	st := h1RunCore(env, c)
+	if st == nil {
+		return
+	}
+	stats := env.Sim.Stats()
+	for i, hr := range st.Runs {
+		h1Oracles(env, c, st, hr, i, stats)
+	}
+}
+
+// h1RunCore executes the configured run(s); it returns nil when nothing can be judged.
+func h1RunCore(env *Env, c *H1Cfg) *h1State {
 	st := &h1State{}
 	if c.Mode == "file" {
 		p, err := writeTempYAML(c.FileYAML)
 		if err != nil {
 			env.PrecondNotMet(env.Prop)
-			return
+			return nil
 		}
 		st.YAMLPath = p
 		defer removeTemp(p)
@@ -65,16 +77,14 @@ func (h h1) Run(env *Env, cfg any) {
 			sig := "hang/" + blockedSig(stats.Blocked)
 			env.Violate("C05", "run-never-returned", sig, "%s (%s)", detail, cur)
 		}
-		for _, p := range (h1{}).Props() {
+		for _, p := range append((h1{}).Props(), "C14", "C15") {
 			if p != "C05" {
 				env.PrecondNotMet(p)
 			}
 		}
-		return
+		return nil
 	}
-	for i, hr := range st.Runs {
-		h1Oracles(env, c, st, hr, i, stats)
-	}
+	return st
 }
 
 func blockedSig(blocked []string) string {
@@ -145,9 +155,12 @@ func h1Oracles(env *Env, c *H1Cfg, st *h1State, hr *h1Run, runIdx int, stats sim
 		case strings.Contains(g.DoPanic, "harness-planned-panic"):
 			owner = "C07"
 		}
+		if c.Input != nil {
+			owner = "C14" // the scenario is trivial: only the input can have caused it
+		}
 		first := strings.SplitN(g.DoPanic, "\n", 2)[0]
 		env.Violate(owner, "panic-escaped", "panic/"+first, "panic escaped from f1: %s", truncate(g.DoPanic, 1500))
-		for _, p := range (h1{}).Props() {
+		for _, p := range append((h1{}).Props(), "C14", "C15") {
 			if p != owner {
 				env.PrecondNotMet(p)
 			}
@@ -155,6 +168,9 @@ func h1Oracles(env *Env, c *H1Cfg, st *h1State, hr *h1Run, runIdx int, stats sim
 		return
 	}
 	if g.TrigErr != "" || g.NewRunErr != "" {
+		if c.File != nil {
+			env.PrecondNotMet("C15")
+		}
 		// generated configurations are meant to be valid; a rejected one judges nothing
 		for _, p := range (h1{}).Props() {
 			env.PrecondNotMet(p)
@@ -229,7 +245,8 @@ func h1Oracles(env *Env, c *H1Cfg, st *h1State, hr *h1Run, runIdx int, stats sim
 		for _, b := range g.Bodies {
 			seen[b.Iter]++
 		}
-		for k, v := range seen {
+		for _, k := range sortedKeys(seen) {
+			v := seen[k]
 			if v > 1 {
 				env.Violate("C03", "duplicate-id", "run/"+c.Mode, "iteration id %q observed by %d invocations", k, v)
 			}
